@@ -29,7 +29,7 @@ Definition bip32_decode_pub : list N -> option xpub := extpub_decode point parse
 Definition bitcoin_seed : list N := [66; 105; 116; 99; 111; 105; 110; 32; 115; 101; 101; 100]%N.
 Definition bip32_set_seed (seed : list N) : option xprv :=
   let out := hmac_sha512_spec bitcoin_seed seed in
-  let k := Bip32.be_val (firstn 32 out) in
+  let k := be_val (firstn 32 out) in
   if (0 <? k) && (k <? secp_n)
   then Some {| x_depth := 0; x_fpr := [0; 0; 0; 0]%N; x_child := 0; x_cc := skipn 32 out; x_key := k |}
   else None.
